@@ -95,6 +95,12 @@ def run(ctx, deps=True):
         c01.run(ctx.sub("DEP-C01"))
         # "properly signed metadata is accepted" also needs the verifier's completeness (C02)
         c02.run(ctx.sub("DEP-C02"), deps=False)
+        # "well-formed trusted metadata" is what the delegating-metadata checker accepts: it must
+        # accept exactly the schema, or properly signed metadata is turned away with it (C14's
+        # rule set, re-evaluated here)
+        from . import c14
+
+        c14.run(ctx.sub("DEP-C14"), deps=False)
 
 
 def _cause(eng, p, x, name, U, T, gpg, D, K, th):
